@@ -174,8 +174,8 @@ def _with_tier(strategy, tier):
 
 def parts(tier):
     return [
-        Part("small", strategy=lambda t: _with_tier(case_strategy(t, "small"), t), check=check, quick=(6, 100), thorough=(12, 1500)),
-        Part("large", strategy=lambda t: _with_tier(case_strategy(t, "large"), t), check=check, quick=(2, 40), thorough=(4, 500)),
-        Part("negated_thresholds", strategy=lambda t: _with_tier(negation_case(t), t), check=check, quick=(2, 150), thorough=(4, 2500)),
-        Part("boolean_negations", strategy=lambda t: _with_tier(boolean_case(t), t), check=check, quick=(4, 120), thorough=(8, 2000)),
+        Part("small", strategy=lambda t: _with_tier(case_strategy(t, "small"), t), check=check, quick=(6, 200), thorough=(12, 1500)),
+        Part("large", strategy=lambda t: _with_tier(case_strategy(t, "large"), t), check=check, quick=(2, 80), thorough=(4, 500)),
+        Part("negated_thresholds", strategy=lambda t: _with_tier(negation_case(t), t), check=check, quick=(2, 300), thorough=(4, 2500)),
+        Part("boolean_negations", strategy=lambda t: _with_tier(boolean_case(t), t), check=check, quick=(4, 200), thorough=(8, 2000)),
     ]
